@@ -458,6 +458,7 @@ def dispatch_hygiene(run, pid):
 def c05(run):
     import lexh
     q = run.tier == "quick"
+    parse_layer(run, "C05")
     for name in C05_CONFIGS:
         c = C05_CONFIGS[name]
         res = lib.run_tlc("MC_C05", gen_cfg(c, maxlen=c[8] if q else c[9]), coverage=False)
@@ -527,9 +528,34 @@ NEXT Next
 """
 
 
+PARSE_CFG = """CONSTANT Dev <- {dev}
+CONSTANT MaxTokens = {n}
+INIT Init
+NEXT Next
+{invs}
+"""
+PARSE_INVS = ["AcceptsExactlyTheLanguage", "FailsAtFirstBadToken", "OneEventPerCommand", "DocAttachment", "DocumentedThenCommand",
+              "ArgumentBoundaries", "ModuleOnlyFirst", "EventsInSourceOrder", "Emit"]
+
+
+def parse_layer(run, pid):
+    """CMakeParse.tla: the parser between lexer and aggregator, every token stream up to a length bound"""
+    import parseh
+    q = run.tier == "quick"
+    n = 7 if q else 9
+    res = lib.run_tlc("MC_CMakeParse", PARSE_CFG.format(dev="NoDev", n=n, invs="\n".join("INVARIANT " + i for i in PARSE_INVS)))
+    run.add_tlc("MC_CMakeParse(tokens<=%d)" % n, res)
+    parseh.replay(run, pid, res.lines.get("BEH", []), run.seed, limit=4000 if q else 60000)
+    res0 = lib.run_tlc("MC_CMakeParse", PARSE_CFG.format(dev="ModuleAnywhere", n=4, invs="INVARIANT AcceptsExactlyTheLanguage"),
+                       want_violation=True, coverage=False)
+    if not res0.violated:
+        raise lib.MachineryError("CMakeParse.tla: a machine that takes '@module' anywhere no longer violates AcceptsExactlyTheLanguage")
+
+
 def c06(run):
     import lexh
     q = run.tier == "quick"
+    parse_layer(run, "C06")
     # the pipeline as one machine (CMinx.tla): fault kinds x file order x input mode, failure propagation
     invs = ["C06_NoPageForFaulty", "C06_FailsLoudly", "C06_NoPartialView", "StopsAtFirstFault", "Emit"]
     res = lib.run_tlc("MC_CMinx", CMINX_CFG.format(dev="NoDev", n=3 if q else 4, invs="\n".join("INVARIANT " + i for i in invs)))
